@@ -7,7 +7,7 @@ A callee that is not listed is evaluated as an uninterpreted application whose `
 arguments receive a post-state (vflow.default_call).
 """
 from . import terms as T
-from .vflow import Ref, Clos, Tup, Seq, Place, index_term, mk_comp, keyrepr, field_term
+from .vflow import Ref, Clos, Tup, Seq, Opt, Place, index_term, mk_comp, keyrepr, field_term
 from .facts import strip_generics, callee_key
 
 TABLE = {}
@@ -131,6 +131,9 @@ def h_from(vf, node, fn, args):
      'std::result::Result::expect', 'std::option::Option::unwrap_unchecked', 'std::result::Result::unwrap_unchecked')
 def h_unwrap(vf, node, fn, args):
     v = args[0]
+    if isinstance(v, Opt):
+        vf.discipline.append(('unwrap', tt(vf, v), node.get('sp'), vf.owner()))
+        return v.payload
     if isinstance(v, T.Tm) and T.is_app(v, 'opt'):
         v = v[2][1]          # Some-payload of a modelled option: v.get(i).unwrap() == v[i], a.checked_sub(b).unwrap() == a - b
     vf.discipline.append(('unwrap', tt(vf, v) if not isinstance(v, Ref) else tt(vf, v), node.get('sp'), vf.owner()))
@@ -369,7 +372,7 @@ for _k, _n in {
     'burn::tensor::Tensor::cat': 'cat_t', 'burn::tensor::Tensor::transpose': 'transpose', 'burn::tensor::Tensor::swap_dims': 'swap_dims',
     'burn::tensor::Tensor::flip': 'flip', 'burn::tensor::Tensor::dims': 'dims', 'burn::tensor::Tensor::shape': 'shape_t',
     'burn::tensor::Shape::new': 'shape_new',
-    'ndarray::ArrayBase::slice': 'nd_slice', 'ndarray::ArrayBase::index_axis': 'index_axis', 
+    'ndarray::ArrayBase::index_axis': 'index_axis', 
     'ndarray::ArrayBase::t': 'transpose', 'ndarray::ArrayBase::insert_axis': 'insert_axis',
     'ndarray::ArrayBase::broadcast': 'broadcast', 'ndarray::ArrayBase::shape': 'shape', 
     'ndarray::ArrayBase::first': 'first',
@@ -384,6 +387,29 @@ for _k, _n in {
     'std::vec::from_elem': 'repeat',
 }.items():
     reg('SHAPE', _k)(_func(_n))
+
+
+@reg('SHAPE', 'ndarray::ArrayBase::slice')
+def h_nd_slice(vf, node, fn, args):
+    """x.slice(s![a..b]) of a ONE-dimensional array is the sub-slice x[a..b] (a.. runs to len(x)); other ranks keep the
+    nd_slice(x, sliceinfo) form that the shape canonicaliser of the specs reads"""
+    x = tt(vf, vf.deref(args[0]))
+    info = tt(vf, vf.deref(args[1]))
+    ty = str((node.get('args') or [{}])[0].get('ty', ''))
+    if '[usize; 1]' in ty and T.is_app(info, 'sliceinfo') and info[2] and T.is_app(info[2][0], 'array') and len(info[2][0][2]) == 1:
+        e = info[2][0][2][0]
+        if T.is_app(e, ('adt:ndarray::SliceInfoElem::Slice', 'std::convert::From::from', 'ndarray::SliceInfoElem::from')) and e[2]:
+            e = e[2][0]
+        from .vflow import seq_len
+        if T.is_app(e, 'adt:std::ops::RangeFrom') and len(e[2]) == 1 and T.is_app(e[2][0], 'f:start'):
+            return T.app('index', x, T.app('range', e[2][0][2][0], seq_len(x)))
+        if T.is_app(e, 'range') and len(e[2]) == 2:
+            return T.app('index', x, e)
+        if T.is_app(e, 'adt:std::ops::RangeTo') and len(e[2]) == 1 and T.is_app(e[2][0], 'f:end'):
+            return T.app('index', x, T.app('range', T.ZERO, e[2][0][2][0]))
+        if T.is_app(e, 'adt:std::ops::RangeFull'):
+            return x
+    return T.app('nd_slice', x, info)
 
 
 @reg('SHAPE', 'burn::tensor::Tensor::from_data', 'burn::tensor::Tensor::from_floats')
@@ -515,6 +541,24 @@ def h_vec_new(vf, node, fn, args):
     return T.app('array')
 
 
+@reg('SEQ', 'std::vec::Vec::clear')
+def h_vec_clear(vf, node, fn, args):
+    r = args[0]
+    if isinstance(r, Ref):
+        vf.write(r.place, T.app('array'))       # the emptied vector (capacity is not a value)
+        return T.UNIT
+    return vf.default_call('std::vec::Vec::clear', args, node, fn)
+
+
+@reg('SEQ', 'core::slice::split_at', 'std::slice::split_at')
+def h_split_at(vf, node, fn, args):
+    """x.split_at(k) = (x[..k], x[k..])"""
+    from .vflow import seq_len
+    x = tt(vf, vf.deref(args[0]))
+    k = tt(vf, args[1])
+    return Tup([T.app('index', x, T.app('range', T.ZERO, k)), T.app('index', x, T.app('range', k, seq_len(x)))])
+
+
 @reg('SEQ', 'std::vec::Vec::push')
 def h_push(vf, node, fn, args):
     r, x = args[0], tt(vf, args[1])
@@ -580,6 +624,18 @@ def h_sort_by(vf, node, fn, args):
      'std::iter::Iterator::by_ref', 'std::vec::Vec::into_iter')
 def h_iter(vf, node, fn, args):
     return vf.as_seq(args[0], node)
+
+
+@reg('ITER', 'ndarray::ArrayBase::rows_mut', 'ndarray::ArrayBase::outer_iter_mut')
+def h_rows_mut(vf, node, fn, args):
+    """rows of a two-dimensional array, mutably: row i is the place `x.row_mut(i)`"""
+    r = args[0]
+    ty = str((node.get('args') or [{}])[0].get('ty', ''))
+    if isinstance(r, Ref) and '[usize; 2]' in ty:
+        base = tt(vf, r)
+        n = index_term(T.app('shape', base), T.ZERO)
+        return Seq(n, lambda i: Ref(Place(r.place.root, r.place.path + (('idx', T.app('row_mut', i)),)), True), 'rows_mut', src=base)
+    return vf.default_call(callee_key(fn), args, node, fn)
 
 
 @reg('ITER', 'ndarray::ArrayBase::axis_iter', 'ndarray::ArrayBase::axis_iter_mut', 'ndarray::ArrayBase::rows',
@@ -741,6 +797,16 @@ def h_take(vf, node, fn, args):
             m = umin(k, T.sub(hi, lo))
             vf.write(r.place, T.app('range', T.add(lo, m), hi))
             return Seq(m, lambda i: T.add(lo, i), 'take(range)', src=None)
+        if isinstance(cur, Seq) and getattr(cur, 'stop', None) is None:
+            # seq.by_ref().take(k): the next min(k, remaining) elements from the iterator's position, which advances past them
+            posp = Place(('cursor', r.place.root), r.place.path)
+            pos = tt(vf, vf.read(posp))
+            left = cur.n if cur.n == T.sym('inf') else monus(vf, cur.n, pos)
+            m = k if left == T.sym('inf') else (k if known_le(vf, k, left) else left if known_le(vf, left, k) else min_term(k, left))
+            # (the position is advanced by k even when fewer are left: past the end there is nothing to observe either way, and an
+            # invariant step keeps the position a closed-form counter)
+            vf.write(posp, T.add(pos, k))
+            return Seq(m, lambda i: cur.elem(T.add(pos, i)), 'take(cursor)', src=cur.src)
     s = vf.as_seq(args[0], node)
     return Seq(min_term(s.n, k), s.elem, 'take(%s)' % s.desc, src=s.src)
 
@@ -893,7 +959,23 @@ def h_zip_and(vf, node, fn, args):
 
 @reg('ITER', 'std::iter::Iterator::next')
 def h_next(vf, node, fn, args):
-    # explicit next() outside a for-loop desugaring: opaque element
+    """explicit `it.next()` on an iterator held in a variable: the element at the iterator's position (Some iff one is left), and
+    the position advances by one.  A range keeps its position in the range term itself; any other sequence in a hidden integer
+    place next to the variable (so a hand-advanced iterator is an ordinary counter for the loop summaries)."""
+    r = args[0]
+    if isinstance(r, Ref):
+        cur = vf.read(r.place)
+        ct = cur if isinstance(cur, T.Tm) else None
+        if ct is not None and T.is_app(ct, 'range') and len(ct[2]) == 2:
+            lo, hi = ct[2]
+            vf.write(r.place, T.app('range', T.add(lo, T.ONE), hi))
+            return T.app('opt', T.cmp('lt', lo, hi), lo)
+        if isinstance(cur, Seq) and getattr(cur, 'stop', None) is None:
+            posp = Place(('cursor', r.place.root), r.place.path)
+            pos = tt(vf, vf.read(posp))
+            vf.write(posp, T.add(pos, T.ONE))
+            cond = T.TRUE if cur.n == T.sym('inf') else T.cmp('lt', pos, cur.n)
+            return Opt(cond, cur.elem(pos))
     return vf.default_call('iter_next', args, node, fn)
 
 
@@ -1155,10 +1237,11 @@ def h_opt_combinators(vf, node, fn, args):
 
     def call(f, xs, under):
         f = vf.deref(f)
-        if not isinstance(f, Clos):
-            return None
         vf.pc.append(under)
         try:
+            if not isinstance(f, Clos):
+                r_ = vf.apply_fn_item(tt(vf, f), xs, node)          # a function item in place of a closure (`unwrap_or_else(T::neg_infinity)`)
+                return tt(vf, r_) if r_ is not None else None
             return tt(vf, vf.apply_closure(f, xs))
         finally:
             vf.pc.pop()
